@@ -137,6 +137,8 @@ func run(c *fw.Ctx) {
 				try(fmt.Sprintf("k%d|sticky", k), env.SinkPlan{FailAt: k, FailAt2: -1, Sticky: true})
 				try(fmt.Sprintf("k%d|partial", k), env.SinkPlan{FailAt: k, FailAt2: -1, Partial: true})
 				try(fmt.Sprintf("k%d|partial-sticky", k), env.SinkPlan{FailAt: k, FailAt2: -1, Partial: true, Sticky: true})
+				try(fmt.Sprintf("k%d|full", k), env.SinkPlan{FailAt: k, FailAt2: -1, Full: true})
+				try(fmt.Sprintf("k%d|full-sticky", k), env.SinkPlan{FailAt: k, FailAt2: -1, Full: true, Sticky: true})
 				if c.Thorough() {
 					for k2 := k + 1; k2 < K; k2++ {
 						try(fmt.Sprintf("k%d|k%d", k, k2), env.SinkPlan{FailAt: k, FailAt2: k2})
